@@ -378,7 +378,11 @@ def st_refuse(draw):
 def run_shard(ctx):
     quick = ctx.tier == "quick"
     n = 1200 if quick else 30000
-    ctx.hyp(st_render(), check_case, n)
-    ctx.hyp(st_invert(), check_case, n // 2, seed_salt=1)
-    ctx.hyp(st_invert(partial=True), check_case, n // 3, seed_salt=2)
-    ctx.hyp(st_refuse(), check_case, n // 6, seed_salt=3)
+    # the four kinds are interleaved in one stream: the directive tables are
+    # process-wide, so a parse must not change what a later render produces
+    # (a failure that needs the earlier cases is replayed with them)
+    ctx.hyp(st.one_of(st_render(), st_render(), st_render(), st_render(),
+                      st_render(), st_render(), st_invert(), st_invert(),
+                      st_invert(), st_invert(partial=True),
+                      st_invert(partial=True), st_refuse()),
+            check_case, 2 * n)
